@@ -48,6 +48,11 @@ def set (isZero : α → Bool) (m : Mat α) (a b : String) (x : α) : Mat α × 
     | none => (m, .err "IndexError")
   | _, _ => (m, .err "MissingTaxon")
 
+/-- `set_taxa`: replaces the labels, refused when their number differs from the matrix size; no cell changes
+    and every later by-name access resolves through the NEW labels -/
+def setTaxa (m : Mat α) (taxa : List String) : Mat α × Res Unit :=
+  if taxa.length ≠ size m then (m, .err "SizeError") else ({ m with taxa := taxa }, .ok ())
+
 /-- integer inverse of the triangular index: row of linear index `k` (`rowvec_to_tril_index` computes the
     same with `f64::sqrt`; compared through the hook) -/
 def rowGo : Nat → Nat → Nat → Nat → Nat   -- fuel, k, candidate row i, T i
